@@ -96,6 +96,10 @@ CheckInterval07(r, o, rec, out, T, Tc, cues, k) ==
               /\ Chk(~StyleDiff(T[k], got, "i"), r, o, "tag_runs_italic", <<k>>)
               /\ Chk(~StyleDiff(T[k], got, "u"), r, o, "tag_runs_underline", <<k>>)
               /\ Chk(~StyleDiff(T[k], got, "col"), r, o, "tag_runs_colour", <<k>>)
+              /\ Chk(\A l \in 1..Len(got) : \A c \in 1..Len(got[l]) : got[l][c].rcol = 0, r, o, "colour_tag_around_default_coloured_text", <<k>>)
+              /\ IF out.fmt = "vtt"
+                 THEN Chk(\A l \in 1..Len(got) : \A c \in 1..Len(got[l]) : got[l][c].rbg = 0, r, o, "background_tag_around_default_background_text", <<k>>)
+                 ELSE TRUE
               /\ IF out.fmt = "vtt" THEN Chk(~StyleDiff(T[k], got, "bg"), r, o, "tag_runs_background", <<k>>) ELSE TRUE
       /\ IF out.fmt # "vtt" THEN TRUE
          ELSE /\ IF out.lp = 1
